@@ -8,7 +8,7 @@ TECH = "bounded model checking of the real code: Kani 0.68 -> CBMC 6.11 (cadical
 
 CLAIMED = {
  "C15": dict(
-   text="A generic contract Gc<A,B,V,R,U,W> (A used directly and AGAIN after B and V -- so a de-duplication that only looks at adjacent uses shows up --, B only inside Option, V only inside Vec, R only as a query response, U unused, W under a where-bound relating it to A) and an interface with associated types are expanded by the real macros; the harness crate NAMES each generated type with exactly the expected parameters (ExecMsg<A,B,V>, QueryMsg<R>, SudoMsg<W>, InstantiateMsg, IfgExecMsg<T1>, IfgQueryMsg<T2>) and equates them with the ContractApi aliases (compile gate), and CBMC decides differentially against a non-generic twin, over symbolic values: same serde events, same accepted names (phantom placeholder never accepted), same decode verdict and value, same handler and argument on dispatch (including the interface arm).",
+   text="A generic contract Gc<A,B,V,R,U,W> (A used directly and AGAIN after B and V -- so a de-duplication that only looks at adjacent uses shows up --, B only inside Option, V only inside Vec, R only as a query response, U unused, W under a where-bound relating it to A) and an interface with associated types are expanded by the real macros; the harness crate NAMES each generated type with exactly the expected parameters (ExecMsg<A,B,V>, QueryMsg<R>, SudoMsg<W>, InstantiateMsg, IfgExecMsg<T1>, IfgQueryMsg<T2>) and equates them with the ContractApi aliases (compile gate), and CBMC decides differentially against a non-generic twin, over symbolic values: same serde events, same accepted names (phantom placeholder never accepted, contract and interface messages), same decode verdict and value, same handler and argument on dispatch (including the interface arm).",
    note="the parameter lists / where-clauses themselves are token-level facts decided only through the compile gate; one instantiation; program dimension sampled by one generic contract + one interface",
    ref="§3 C15"),
  "C14": dict(
@@ -40,7 +40,7 @@ CLAIMED = {
    note="the serde_cw_value container is replaced by a bounded two-level model (hw/facade; <=3 entries, strings <=8 bytes; overflow asserted absent) which is validated natively against the real container and real JSON text on 40 documents in every run (pre-flight), the error TEXT (format!, String::push_str stubbed) and the JSON text layer are outside; program dimension sampled (3 corpus contracts)",
    ref="§3 C03"),
  "C01": dict(
-   text="CBMC decides, over the derived (de)serialisers of the message types the real macros generate for corpus `basic` (contract: 5 kinds; two interfaces), driven through the serde data model: (a) for symbolic variant and argument values the recorded serde events are exactly {name:{arg:value..}} with the arguments in declaration order (flat struct for instantiate/migrate) and constructors equal literals; (c) for a symbolic received name of each length 3..7 the type accepts it iff it is the name of a method of that kind (hand-written list) -- and iff it is in the published list; for 10 body layouts with symbolic values decoding succeeds iff every argument is present exactly once and in range, and the decoded value re-serialises to the oracle's events.",
+   text="CBMC decides, over the derived (de)serialisers of the message types the real macros generate for corpus `basic` (contract: 5 kinds; two interfaces), driven through the serde data model: (a) for symbolic variant and argument values the recorded serde events are exactly {name:{arg:value..}} with the arguments in declaration order (flat struct for instantiate/migrate) and constructors equal literals; (c) for a symbolic received name of each length 3..7 the type accepts it iff it is the name of a method of that kind (hand-written list) -- and iff it is in the published list; for 10 body layouts with symbolic values decoding succeeds iff every argument is present exactly once and in range, and the decoded value re-serialises to the oracle's events; the internal type-parameter placeholder variant of GENERIC contract / interface messages is not accepted under any casing.",
    note="JSON text layer (serde_json_wasm) outside: harness-supplied Serializer/Deserializer stand in its place; argument types u8/u32/u64/bool; names <= 7 bytes; program dimension sampled (17 handlers incl. multi-word and digit-bearing names); trusted: Kani/CBMC/cadical, HSpec table",
    ref="§3 C01"),
  "C11": dict(
@@ -52,16 +52,16 @@ CLAIMED = {
    note="typed payload decode side (from_json) and hence the typed round trip are outside; payload <= 3 bytes; program dimension sampled by two corpus contracts; stubs: Backtrace::capture, fmt::format; trusted: Kani/CBMC/cadical, oracle table replies_h::TABLE",
    ref="§3 C08"),
  "C09": dict(
-   text="CBMC decides the data-extraction cells of the raw modes and of the absent marker for the generated dispatch_reply: #[sv::data(raw)] hands 0/1/3 symbolic data bytes through unchanged and turns absent data into an error WITHOUT invoking the handler; #[sv::data(raw, opt)] hands them through or gives None; without a marker the first parameter is payload. The two INSTANTIATE modes are decided for envelopes of 2 symbolic bytes against a hand-written reference of the protobuf wire format: well-formed (tag byte with field 1 / wire type 2, length 0) => the decoded (empty) address reaches the handler; malformed => error WITHOUT invoking the handler (also for `instantiate, opt`); absent => error / None. Decided for 4 of the 6 modes plus the absent marker.",
-   note="the two EXECUTE-envelope typed modes (typed; opt) are OUTSIDE the claim: after the envelope they run from_json on the inner data (JSON text parsing, DESIGN P5/P18); raw data <= 3 bytes, instantiate envelopes of 2 bytes (3-byte instances exhaust CBMC's memory); stubs: Backtrace::capture, fmt::format; trusted: Kani/CBMC/cadical, oracle table",
+   text="CBMC decides the data-extraction cells of the raw modes and of the absent marker for the generated dispatch_reply: #[sv::data(raw)] hands 0/1/3 symbolic data bytes through unchanged and turns absent data into an error WITHOUT invoking the handler; #[sv::data(raw, opt)] hands them through or gives None; without a marker the first parameter is payload. The two INSTANTIATE modes are decided for envelopes of 2 symbolic bytes against a hand-written reference of the protobuf wire format: well-formed (tag byte with field 1 / wire type 2, length 0) => the decoded (empty) address reaches the handler; malformed => error WITHOUT invoking the handler (also for `instantiate, opt`); absent => error / None. For the two EXECUTE-envelope typed modes the data-absent and empty-envelope cells are decided (mandatory: error WITHOUT invoking the handler -- also when the parameter's type is itself an Option, the declared mode decides --; opt: None / error).",
+   note="the JSON-inside-the-envelope cells of the two EXECUTE-envelope typed modes (well-formed / malformed inner JSON) are OUTSIDE the claim: every cell whose envelope carries inner bytes does not finish, even with from_json replaced (hw/c09t/README.md); raw data <= 3 bytes, instantiate envelopes of 2 bytes (3-byte instances exhaust CBMC's memory); stubs: Backtrace::capture, fmt::format; trusted: Kani/CBMC/cadical, oracle table",
    ref="§3 C09"),
  "C02": dict(
-   text="CBMC decides, for the dispatch functions generated by the real macros for corpus contract `basic` (own messages of all five kinds and the three contract-level wrappers over a contract + 2 interfaces), over ALL argument values, env/info values, storage/api/querier tags and both handler outcomes: exactly one handler runs, it is the one the variant was generated from, every field reaches the same-named parameter, the context is the caller's, the write lands in the caller's storage, Ok responses come back untouched, errors come back converted into the declared type, query results are the JSON bytes of the returned value.",
-   note="program dimension sampled (one contract, two interfaces, 19 handlers incl. same-signature siblings); argument types primitive; storage/api/querier are tag objects; stubs: Backtrace::capture, fmt::format (error text outside); trusted: Kani/CBMC/cadical, oracle table in corpus/basic.rs",
+   text="CBMC decides, for the dispatch functions generated by the real macros for corpus contract `basic` (own messages of all five kinds and the three contract-level wrappers over a contract + 2 interfaces), over ALL argument values, env/info values, storage/api/querier tags and both handler outcomes: exactly one handler runs, it is the one the variant was generated from, every field reaches the same-named parameter, the context is the caller's, the write lands in the caller's storage, Ok responses come back untouched, errors come back converted into the declared type, query results are the JSON bytes of the returned value (a struct in `basic`; corpus `qret`: bool, and Binary from a contract and an interface query -- returned as a JSON string, not as its bytes).",
+   note="program dimension sampled (one contract, two interfaces, 19 handlers incl. same-signature siblings); argument types primitive; storage/api/querier are tag objects; stubs: Backtrace::capture, fmt::format (error text outside); for the Binary-returning queries Binary::to_base64 is a constant stub (base64 text outside); trusted: Kani/CBMC/cadical, oracle table in corpus/basic.rs",
    ref="§3 C02"),
  "C07": dict(
-   text="CBMC decides, for the generated dispatch_reply of a corpus contract with 9 reply ids (success-only, error-only, two methods per name in both declaration orders, always, handlers=[a,b], raw and raw,opt data), one harness per declared id plus unknown ids (quick: one concrete; thorough: every other u64), over ALL gas values, Ok/Err, event/msg_response/data presence and bytes, payload byte and handler outcomes: which method runs with which context and arguments, the pass-through arms (events+data forwarded, error forwarded) and that unknown ids are errors running nothing.",
-   note="all payloads raw (typed payload/data would put from_json on the path: outside); strings 1 byte; lists 0..1; program dimension sampled by one handler table; stubs: Backtrace::capture, fmt::format; trusted: Kani/CBMC/cadical, oracle table in corpus/replies.rs",
+   text="CBMC decides, for the generated dispatch_reply of a corpus contract with 9 reply ids (success-only, error-only, two methods per name in both declaration orders, always, handlers=[a,b], raw and raw,opt data), one harness per declared id plus unknown ids (quick: one concrete; thorough: every other u64), over ALL gas values, Ok/Err, event/msg_response/data presence and bytes, payload byte and handler outcomes: which method runs with which context and arguments, the pass-through arms (events+data forwarded, error forwarded) and that unknown ids are errors running nothing. TYPED payloads (second corpus contract, sylvia::cw_std::from_json replaced by a serde-doc decoder): a success-only and an error-only name with one typed payload value -- covered outcome: the handler gets the decoded value, a malformed payload is an error without invoking it; UNCOVERED outcome: answered as if no reply had been requested, whatever the payload holds.",
+   note="JSON text of typed payloads outside (from_json replaced by the facade decoder, crate c09t); typed data modes: see C09; strings 1 byte; lists 0..1; program dimension sampled by one handler table; stubs: Backtrace::capture, fmt::format; trusted: Kani/CBMC/cadical, oracle table in corpus/replies.rs",
    ref="§3 C07"),
  "C05": dict(
    text="For every concrete shape in the bound (2..3 parts, thorough 4; 0..2 names per part; names of 1..2 bytes over an 8-letter alphabet) CBMC decides, over ALL name contents, both directions of the overlap check as compiled from /repo: no shared name => returns, shared name => panics (cover 'returned normally' UNSATISFIABLE). The generated lists of a contract/interface corpus are checked sorted, duplicate-free and equal to the set of names the derived decoders accept (symbolic received name).",
